@@ -14,9 +14,11 @@ VARIABLE i
 IsNav(RB, dev, cmds, p) == \/ (RB.exit # "" /\ p[Len(p)] = <<RB.exit>>)
                            \/ \E k \in DOMAIN cmds : Len(cmds[k]) = Len(p) + 1 /\ SubSeq(cmds[k], 1, Len(p)) = p
                            \/ (RB.exit = "" /\ PresentPath(dev, p) /\ KidsAt(dev, p) # <<>>)
+                           \/ ("flat" \in DOMAIN RB /\ RB.flat /\ p[1][1] = "set"            \* flat vendors: `set <header of an existing block>`
+                               /\ LET q == FlatPath(RB, p[1]) IN q # <<>> /\ PresentPath(dev, q) /\ KidsAt(dev, q) # <<>>)
 VerdictApply(r) ==
   LET RB == Aux.rbs[r.rb]
-      dev == ExecAll(RB, r.old, r.cmds)
+      dev == Run(RB, r.old, r.cmds)
   IN <<(IF Conv(dev, r.new, r.old, RB.rules, <<>>) THEN "ok" ELSE "device-did-not-converge"),
        ToJson([t |-> dev, strict |-> Same(dev, r.new, RB.rules, <<>>)])>>
 VerdictSecond(r) ==
@@ -24,7 +26,7 @@ VerdictSecond(r) ==
       strict == Same(r.dev, r.new, RB.rules, <<>>)
   IN <<(IF strict THEN (IF r.diff2 # <<>> THEN "second-diff-not-empty"
                         ELSE IF r.cmds2 # <<>> THEN "second-patch-has-commands" ELSE "ok")
-        ELSE IF Canon(ExecAll(RB, r.dev, r.cmds2)) # Canon(r.dev) THEN "second-patch-has-effect"
+        ELSE IF Canon(Run(RB, r.dev, r.cmds2)) # Canon(r.dev) THEN "second-patch-has-effect"
         ELSE IF \E k \in DOMAIN r.cmds2 : ~IsNav(RB, r.dev, r.cmds2, r.cmds2[k]) THEN "second-patch-has-commands"
         ELSE "ok"), "">>
 Verdict(r) == IF r.kind = "apply" THEN VerdictApply(r) ELSE VerdictSecond(r)
